@@ -119,9 +119,9 @@ func init() {
 	core.Register(&core.Prop{
 		ID:    "C10",
 		Level: "exploration",
-		Rule: "twin calls cache vs source: seeded source trees (mem.FS; directories to depth 3; file sizes 0,1,511,512,513,1024,5000,70000 around the 512-byte copy buffer; a setuid/sticky mode on some entries) are wrapped in a call-counting source exposing only Open (optionally with non-seekable files); a cache FS is built for every RetainData policy (always, never, by name, by size) over a full mem.FS store and over a store exposing only Open+OpenFile+Mkdir; a seeded sequence of 40 (80 thorough) Open / FS-Stat / Read(len) / Seek / handle Stat / ReadDir(n) / Close calls on up to 4 live handles (files and directories, repeated and interleaved opens, missing names) is applied to the cache and to the source and every result (class, n, bytes, names, kinds, sizes, mode bits) compared; " +
+		Rule: "twin calls cache vs source: seeded source trees (mem.FS; directories to depth 3; file sizes 0,1,511,512,513,1024,5000,70000 around the 512-byte copy buffer; a setuid/sticky mode on some entries) are wrapped in a call-counting source exposing only Open (optionally with non-seekable files); a cache FS is built for every RetainData policy (always, never, by name, by size, and one whose answer changes: yes at the first question about a name, no ever after) over a full mem.FS store and over a store exposing only Open+OpenFile+Mkdir; a seeded sequence of 40 (80 thorough) Open / FS-Stat / Read(len) / Seek / handle Stat / ReadDir(n) / Close calls on up to 4 live handles (files and directories, repeated and interleaved opens, missing names) is applied to the cache and to the source and every result (class, n, bytes, names, kinds, sizes, mode bits) compared; " +
 			"for a retained file, after its first successful open every later open must deliver identical bytes with zero further Open/Read calls on the source for that name. Non-trivial: sequences that re-opened a retained file after its first open; distinct by case parameters",
-		Assumptions: []string{"the source is immutable (contract of the cache)", "modification times are outside the comparison", "with a non-seekable source Seek calls are not issued"},
+		Assumptions: []string{"a side part opens files of a source whose Stat understates the size (0, half) three times each: all the bytes every time", "the source is immutable (contract of the cache)", "modification times are outside the comparison", "with a non-seekable source Seek calls are not issued"},
 		NumCases:    func(env *core.Env) int { return len(c10cases(env)) },
 		Batch:       60,
 		Run:         c10run,
